@@ -196,6 +196,20 @@ func (d *Decoder) DecodeInteger() (uint64, error) {
 	return d.decodeUintFromReader()
 }
 
+// DecodeIntegerMax reads a compact natural that is stored in a field narrower
+// than 64 bits: a value above max does not fit the field and is rejected rather
+// than truncated.
+func (d *Decoder) DecodeIntegerMax(max uint64) (uint64, error) {
+	x, err := d.decodeUintFromReader()
+	if err != nil {
+		return 0, err
+	}
+	if x > max {
+		return 0, fmt.Errorf("integer %d exceeds the maximum %d of its field", x, max)
+	}
+	return x, nil
+}
+
 // Lower bounds of the encoded size of the larger sequence items (every
 // variable-length part empty, every compact integer in one octet). They let a
 // sequence length be checked against the remaining input before it is used
